@@ -11,6 +11,7 @@ import itertools
 import json
 import multiprocessing
 import os
+import signal
 import sys
 import time
 import traceback
@@ -219,13 +220,33 @@ def chunks(seq, n):
 # running
 
 
+class ShardTimeout(BaseException):
+    pass
+
+
+def _shard_alarm(signum, frame):
+    raise ShardTimeout()
+
+
 def _worker(args):
     modname, idx, shard, tier, seed = args
     mod = importlib.import_module(modname)
     acc = Acc(seed, lean=getattr(mod, "LEAN", False))
     t0 = time.time()
+    limit = int(os.environ.get("VERIF_SHARD_TIMEOUT", "3600"))
+    own_watchdog = getattr(mod, "OWN_WATCHDOG", False)
+    if not own_watchdog:
+        signal.signal(signal.SIGALRM, _shard_alarm)
+        signal.alarm(limit)
     try:
-        mod.run_shard(shard, tier, acc)
+        try:
+            mod.run_shard(shard, tier, acc)
+        finally:
+            if not own_watchdog:
+                signal.alarm(0)
+    except ShardTimeout:
+        # no verdict: the exploration of this shard is incomplete (reported as a cap, exhaustive=false)
+        acc.cap(f"shard_timeout_{limit}s:{shard!r}"[:120])
     except BaseException as e:  # a crash of the harness itself, never a verdict
         acc.harness_error(f"shard {idx} {shard!r}: {type(e).__name__}: {e}\n{traceback.format_exc()[-1500:]}")
     acc.counters["shard_cpu_s_x1000"] += int((time.time() - t0) * 1000)
